@@ -212,6 +212,51 @@ pub struct BoundCase {
     /// per coordinate: (a, b, x)
     pub coords: Vec<(Fb, Fb, Fb)>,
     pub seed: u64,
+    /// (resampling operator) the generator's backend first hands out these 64-bit words, then continues with the
+    /// default backend seeded with `seed`: structured words reach the branches of the normal sampler that a seeded
+    /// stream practically never reaches (the outermost layer and the tail, several times in a row)
+    #[serde(default)]
+    pub script: Vec<u64>,
+}
+
+thread_local! {
+    static SCRIPT: std::cell::RefCell<Vec<u64>> = const { std::cell::RefCell::new(Vec::new()) };
+}
+
+/// A generator backend that replays the thread's script and then behaves like ChaCha12.
+pub struct ScriptRng {
+    script: Vec<u64>,
+    pos: usize,
+    rest: rand_chacha::ChaCha12Rng,
+}
+impl rand::RngCore for ScriptRng {
+    fn next_u32(&mut self) -> u32 {
+        (self.next_u64() >> 32) as u32
+    }
+    fn next_u64(&mut self) -> u64 {
+        if self.pos < self.script.len() {
+            self.pos += 1;
+            self.script[self.pos - 1]
+        } else {
+            self.rest.next_u64()
+        }
+    }
+    fn fill_bytes(&mut self, dest: &mut [u8]) {
+        for chunk in dest.chunks_mut(8) {
+            let w = self.next_u64().to_le_bytes();
+            chunk.copy_from_slice(&w[..chunk.len()]);
+        }
+    }
+    fn try_fill_bytes(&mut self, dest: &mut [u8]) -> Result<(), rand::Error> {
+        self.fill_bytes(dest);
+        Ok(())
+    }
+}
+impl rand::SeedableRng for ScriptRng {
+    type Seed = [u8; 32];
+    fn from_seed(seed: Self::Seed) -> Self {
+        ScriptRng { script: SCRIPT.with(|s| s.borrow().clone()), pos: 0, rest: rand_chacha::ChaCha12Rng::from_seed(seed) }
+    }
 }
 
 pub struct BoundCheck;
@@ -222,7 +267,7 @@ impl Check for BoundCheck {
         "C14/boundary".into()
     }
     fn classes(&self) -> &'static [&'static str] {
-        &["coordinate outside", "coordinate exactly on a bound", "coordinate far outside (>= 1000 widths)", "coordinate on the upper bound", "float neighbour of a bound", "all inside", "an evaluated clone of the individual lies in the population below"]
+        &["coordinate outside", "coordinate exactly on a bound", "coordinate far outside (>= 1000 widths)", "coordinate on the upper bound", "float neighbour of a bound", "all inside", "an evaluated clone of the individual lies in the population below", "generator backend replays a script of structured words first"]
     }
     fn oracle(&self, c: &BoundCase) -> Outcome {
         let mut cl = 0;
@@ -238,8 +283,8 @@ static HUNG: std::sync::Mutex<Vec<String>> = std::sync::Mutex::new(Vec::new());
 const MAX_TIMEOUTS: u32 = 3;
 
 /// Runs the operator on a worker thread; None = did not finish within the watchdog time.
-fn apply(op: BOp, dom: Vec<Range<f64>>, xs: Vec<f64>, seed: u64, other: Vec<f64>) -> Option<Result<(Vec<f64>, Vec<f64>, bool), String>> {
-    let key = format!("{op:?} {dom:?} {xs:?}");
+fn apply(op: BOp, dom: Vec<Range<f64>>, xs: Vec<f64>, seed: u64, other: Vec<f64>, script: Vec<u64>) -> Option<Result<(Vec<f64>, Vec<f64>, bool), String>> {
+    let key = format!("{op:?} {dom:?} {xs:?} {script:?}");
     if HUNG.lock().unwrap().contains(&key) {
         return None;
     }
@@ -247,7 +292,7 @@ fn apply(op: BOp, dom: Vec<Range<f64>>, xs: Vec<f64>, seed: u64, other: Vec<f64>
         // budget used up: treat as skipped (the violation is already recorded)
         return Some(Err("SKIPPED".into()));
     }
-    let r = apply_inner(op, dom, xs, seed, other);
+    let r = apply_inner(op, dom, xs, seed, other, script);
     if r.is_none() {
         TIMEOUTS.fetch_add(1, std::sync::atomic::Ordering::SeqCst);
         HUNG.lock().unwrap().push(key);
@@ -255,12 +300,16 @@ fn apply(op: BOp, dom: Vec<Range<f64>>, xs: Vec<f64>, seed: u64, other: Vec<f64>
     r
 }
 
-fn apply_inner(op: BOp, dom: Vec<Range<f64>>, xs: Vec<f64>, seed: u64, other: Vec<f64>) -> Option<Result<(Vec<f64>, Vec<f64>, bool), String>> {
+fn apply_inner(op: BOp, dom: Vec<Range<f64>>, xs: Vec<f64>, seed: u64, other: Vec<f64>, script: Vec<u64>) -> Option<Result<(Vec<f64>, Vec<f64>, bool), String>> {
     let (tx, rx) = mpsc::channel();
     std::thread::spawn(move || {
         let r = catch(|| {
             let problem = RealP::with_domain(dom, RealKind::Sphere);
             let mut st = state_with::<RealP>(vec![vec![if other.iter().map(|x| x.to_bits()).eq(xs.iter().map(|x| x.to_bits())) { Individual::new(other.clone(), 1.0.try_into().unwrap()) } else { Individual::new_unevaluated(other.clone()) }], vec![Individual::new(xs, 1.0.try_into().unwrap())]], seed);
+            if !script.is_empty() {
+                SCRIPT.with(|s| *s.borrow_mut() = script.clone());
+                st.insert(Random::with_rng::<ScriptRng>(seed));
+            }
             let comp: Box<dyn Component<RealP>> = match op {
                 BOp::Saturation => Saturation::new(),
                 BOp::Toroidal => Toroidal::new(),
@@ -323,7 +372,10 @@ fn bound_oracle(c: &BoundCase, cl: &mut u64) -> Result<(), Failure> {
     if c.seed % 5 == 4 {
         *cl |= 64;
     }
-    let out = match apply(c.op, dom.clone(), xs.clone(), c.seed, other.clone()) {
+    if !c.script.is_empty() {
+        *cl |= 128;
+    }
+    let out = match apply(c.op, dom.clone(), xs.clone(), c.seed, other.clone(), c.script.clone()) {
         None => {
             let on_upper = dom.iter().zip(&xs).any(|(r, x)| *x == r.end);
             let sig = if on_upper { format!("C14 {name} does not terminate for a coordinate on the upper bound") } else { format!("C14 {name} does not terminate") };
@@ -351,7 +403,7 @@ fn bound_oracle(c: &BoundCase, cl: &mut u64) -> Result<(), Failure> {
         }
     }
     if exactly_inside {
-        match apply(c.op, dom.clone(), ys.clone(), c.seed.wrapping_add(1), other.clone()) {
+        match apply(c.op, dom.clone(), ys.clone(), c.seed.wrapping_add(1), other.clone(), c.script.clone()) {
             None => {
                 return soft_fail(Failure::new(format!("C14 {name} does not terminate for a coordinate on the upper bound"), format!("{at}: second application on {ys:?} did not finish within 10 s")));
             }
@@ -391,9 +443,9 @@ fn bound_cases(seeds: u64, base_seed: u64) -> Vec<BoundCase> {
                 let n_seeds = if op == BOp::OneTailed { seeds } else { 1 };
                 for s in 0..n_seeds {
                     // single coordinate, and the same coordinate next to an inside and an on-bound one
-                    out.push(BoundCase { op, coords: vec![(Fb::of(a), Fb::of(b), Fb::of(x))], seed: base_seed.wrapping_add(s) });
+                    out.push(BoundCase { op, coords: vec![(Fb::of(a), Fb::of(b), Fb::of(x))], seed: base_seed.wrapping_add(s), script: Vec::new() });
                     if s == 0 {
-                        out.push(BoundCase { op, coords: vec![(Fb::of(a), Fb::of(b), Fb::of(a + (b - a) / 4.0)), (Fb::of(a), Fb::of(b), Fb::of(x)), (Fb::of(-5.0), Fb::of(5.0), Fb::of(5.0))], seed: base_seed.wrapping_add(s) });
+                        out.push(BoundCase { op, coords: vec![(Fb::of(a), Fb::of(b), Fb::of(a + (b - a) / 4.0)), (Fb::of(a), Fb::of(b), Fb::of(x)), (Fb::of(-5.0), Fb::of(5.0), Fb::of(5.0))], seed: base_seed.wrapping_add(s), script: Vec::new() });
                     }
                 }
             }
@@ -401,20 +453,20 @@ fn bound_cases(seeds: u64, base_seed: u64) -> Vec<BoundCase> {
         // O(1) operators: astronomically far away
         if matches!(op, BOp::Saturation | BOp::Toroidal | BOp::Mirror | BOp::OneTailed) {
             for x in [1e300, -1e300, f64::MAX, -f64::MAX, 1e100, -1e17] {
-                out.push(BoundCase { op, coords: vec![(Fb::of(-1.0), Fb::of(1.0), Fb::of(x)), (Fb::of(3.0), Fb::of(7.0), Fb::of(-x))], seed: 1 });
+                out.push(BoundCase { op, coords: vec![(Fb::of(-1.0), Fb::of(1.0), Fb::of(x)), (Fb::of(3.0), Fb::of(7.0), Fb::of(-x))], seed: 1, script: Vec::new() });
             }
             // dimensions of equal width at different positions next to each other, the first inside or outside
             for first in [0.5, 1.5, -0.25] {
                 for (x2, x3) in [(5.5, -7.5), (6.5, -7.5), (5.5, -8.5), (4.0, -6.0)] {
                     for seed in 0..3 {
-                        out.push(BoundCase { op, coords: vec![(Fb::of(0.0), Fb::of(1.0), Fb::of(first)), (Fb::of(5.0), Fb::of(6.0), Fb::of(x2)), (Fb::of(-8.0), Fb::of(-7.0), Fb::of(x3)), (Fb::of(0.0), Fb::of(1.0), Fb::of(0.25))], seed });
+                        out.push(BoundCase { op, coords: vec![(Fb::of(0.0), Fb::of(1.0), Fb::of(first)), (Fb::of(5.0), Fb::of(6.0), Fb::of(x2)), (Fb::of(-8.0), Fb::of(-7.0), Fb::of(x3)), (Fb::of(0.0), Fb::of(1.0), Fb::of(0.25))], seed, script: Vec::new() });
                     }
                 }
             }
             // ... also relative to narrow domains, where distance / width exceeds the largest finite number
             for (a, b) in [(0.0, 0.1), (1e-3, 2e-3), (-1e-3, 1e-3), (-1e-300, 1e-300), (0.25, 0.5)] {
                 for x in [1e308, -1e308, 1e306, f64::MAX, -f64::MAX, 1e300, -1e200, 1e17] {
-                    out.push(BoundCase { op, coords: vec![(Fb::of(a), Fb::of(b), Fb::of(x))], seed: 2 });
+                    out.push(BoundCase { op, coords: vec![(Fb::of(a), Fb::of(b), Fb::of(x))], seed: 2, script: Vec::new() });
                 }
             }
         }
@@ -440,7 +492,35 @@ fn bound_strategy() -> impl Strategy<Value = BoundCase> {
             };
             (Fb::of(a), Fb::of(b), Fb::of(x))
         });
-    (prop_oneof![Just(BOp::Saturation), Just(BOp::Toroidal), Just(BOp::Mirror), Just(BOp::OneTailed)], proptest::collection::vec(coord, 1..7), any::<u64>()).prop_map(|(op, coords, seed)| BoundCase { op, coords, seed })
+    (prop_oneof![Just(BOp::Saturation), Just(BOp::Toroidal), Just(BOp::Mirror), Just(BOp::OneTailed)], proptest::collection::vec(coord, 1..7), any::<u64>()).prop_map(|(op, coords, seed)| BoundCase { op, coords, seed, script: Vec::new() })
+}
+
+/// Resampling cases whose generator first replays a script built from words that steer the normal sampler: words with
+/// a zero low byte select its outermost layer, high bits near the ends of the range give draws beyond three standard
+/// deviations (one overshoot each), an all-zero word enters the tail routine, and words with many leading zero bits
+/// make the tail routine return draws far beyond six standard deviations.
+fn scripted_strategy() -> impl Strategy<Value = BoundCase> {
+    let word = prop_oneof![
+        3 => Just(0xF000_0000_0000_0000u64),
+        3 => Just(0x1000_0000_0000_0000u64),
+        2 => Just(0xE800_0000_0000_0000u64),
+        2 => Just(0u64),
+        2 => any::<u64>().prop_map(|r| r >> 13),
+        1 => any::<u64>().prop_map(|r| r >> 20),
+        1 => any::<u64>().prop_map(|r| r >> 41),
+        1 => any::<u64>().prop_map(|r| r >> 5),
+        1 => any::<u64>().prop_map(|r| r & !0xff),
+        1 => any::<u64>(),
+    ];
+    let dom = proptest::sample::select(domains());
+    (dom, prop_oneof![-3.0f64..0.0, 1.0f64..4.0, Just(-0.001), Just(1.001)], proptest::collection::vec(word, 1..12), any::<u64>(), any::<bool>()).prop_map(|((a, b), t, script, seed, second)| {
+        let x = a + t * (b - a);
+        let mut coords = vec![(Fb::of(a), Fb::of(b), Fb::of(x))];
+        if second {
+            coords.push((Fb::of(a), Fb::of(b), Fb::of(b + (b - a))));
+        }
+        BoundCase { op: BOp::OneTailed, coords, seed, script }
+    })
 }
 
 fn init_strategy() -> impl Strategy<Value = InitCase> {
@@ -480,4 +560,5 @@ pub fn run_all(ctx: &mut Ctx, replay: Option<&Path>) {
     let base = ctx.derive_seed("boundary");
     ctx.exhaustive(&b, &format!("4 operators x 7 domains x ~40 grid coordinates (single and embedded in a 3-coordinate solution) x {seeds} seeds for the resampling operator"), bound_cases(seeds, base).into_iter());
     ctx.random(&b, bound_strategy(), ctx.tier.pick(10_000, 100_000));
+    ctx.random(&b, scripted_strategy(), ctx.tier.pick(30_000, 300_000));
 }
